@@ -15,6 +15,9 @@ inductive STok
   | expr (c : Nat)          -- a complete expression
   | simple (s : Nat)        -- a complete simple statement
   | forin (k : Nat)         -- `name in name` inside `for ( … )`
+  | kBegin | kEnd | kFunction | comma
+  | fname (k : Nat)         -- a function name
+  | param (k : Nat)         -- a parameter name
   | eof
   deriving DecidableEq, Repr
 
@@ -204,5 +207,121 @@ def isList : S → Bool
   | .seq s rest => isStmt s && isList rest
   | _ => false
 end
+
+/-! ## items: `program()` and `Program.String()` -/
+
+/-- BEGIN / END / function / pattern-action items; patterns are opaque expressions (at most two: a range) -/
+inductive Item
+  | begin (body : S)
+  | end_ (body : S)
+  | func (name : Nat) (params : List Nat) (body : S)
+  | action (pats : List Nat) (body : Option S)
+  deriving DecidableEq, Repr
+
+def showParams : List Nat → List STok
+  | [] => []
+  | [p] => [.param p]
+  | p :: ps => .param p :: .comma :: showParams ps
+
+def showPats : List Nat → List STok
+  | [] => []
+  | [c] => [.expr c]
+  | c :: cs => .expr c :: .comma :: showPats cs
+
+def showBody (b : S) : List STok := .lbrace :: .nl :: showLines b ++ [.rbrace]
+
+def showItem : Item → List STok
+  | .begin b => .kBegin :: showBody b
+  | .end_ b => .kEnd :: showBody b
+  | .func n ps b => .kFunction :: .fname n :: .lparen :: showParams ps ++ .rparen :: showBody b
+  | .action pats none => showPats pats
+  | .action pats (some b) => showPats pats ++ showBody b
+
+/-- `strings.Join(parts, "\n\n")` -/
+def showProg : List Item → List STok
+  | [] => []
+  | [i] => showItem i
+  | i :: is => showItem i ++ .nl :: .nl :: showProg is
+
+/-- the parameter list of `function()`: names separated by `, NL*` up to `)` -/
+def pParams : Nat → Bool → List STok → Option (List Nat × List STok)
+  | 0, _, _ => none
+  | n+1, first, ts =>
+    match ts with
+    | .rparen :: r => some ([], r)
+    | _ =>
+      let ts1 := if first then some ts else (match ts with | .comma :: r => some (skipNl r) | _ => none)
+      match ts1 with
+      | some (.param p :: r) =>
+        match pParams n false r with
+        | some (ps, r') => some (p :: ps, r')
+        | none => none
+      | _ => none
+
+/-- one item of `p.program()`: the item, the remaining tokens, and `needsTerminator` -/
+def pItemAt (fuel : Nat) (ts2 : List STok) : Option (Item × List STok × Bool) :=
+  match ts2 with
+  | .kBegin :: r1 =>
+    match pBrace fuel r1 with
+    | some (b, r2, _) => some (.begin b, r2, false)
+    | none => none
+  | .kEnd :: r1 =>
+    match pBrace fuel r1 with
+    | some (b, r2, _) => some (.end_ b, r2, false)
+    | none => none
+  | .kFunction :: r0 =>
+    match r0 with
+    | .fname k :: .lparen :: r1 =>
+      match pParams r1.length.succ true r1 with
+      | some (ps, r2) =>
+        match pBrace fuel (skipNl r2) with
+        | some (b, r3, _) => some (.func k ps b, r3, false)
+        | none => none
+      | none => none
+    | _ => none
+  | _ =>
+    -- [pattern [, pattern]] [ { … } ]
+    let (pats1, r1) : List Nat × List STok := match ts2 with | .expr c :: r => ([c], r) | _ => ([], ts2)
+    if pats1.isEmpty && hd ts2 != .lbrace then none
+    else
+      let res2 : Option (List Nat × List STok) :=
+        if hd r1 == .lbrace || hd r1 == .eof || isSep (hd r1) then some (pats1, r1)
+        else match r1 with
+          | .comma :: r => (match skipNl r with | .expr c :: r' => some (pats1 ++ [c], r') | _ => none)
+          | _ => none
+      match res2 with
+      | none => none
+      | some (pats, r2) =>
+        if hd r2 == .lbrace then
+          match pBrace fuel r2 with
+          | some (b, r3, _) => some (.action pats (some b), r3, false)
+          | none => none
+        else some (.action pats none, r2, true)
+
+/-- `p.program()`; the flag is `needsTerminator` -/
+def pItems : Nat → Bool → List STok → Option (List Item)
+  | 0, _, _ => none
+  | n+1, needs, ts =>
+    match ts with
+    | [] => some []
+    | t :: r =>
+      match (if needs then (if isSep t then some r else none) else some ts) with
+      | none => none
+      | some ts1 =>
+        match skipNl ts1 with
+        | [] => some []
+        | ts2 =>
+          match pItemAt (2 * ts.length + 2) ts2 with
+          | some (i, r2, nd) => (pItems n nd r2).map (i :: ·)
+          | none => none
+
+def parseProg (ts : List STok) : Option (List Item) := pItems (ts.length + 1) false ts
+
+def okItem : Item → Bool
+  | .begin b => isList b
+  | .end_ b => isList b
+  | .func _ _ b => isList b
+  | .action pats none => pats.length == 1 || pats.length == 2
+  | .action pats (some b) => decide (pats.length ≤ 2) && isList b
 
 end GoawkModel.C20Stmt
